@@ -78,6 +78,26 @@ CASES = [
     ("all_any", "def f(a, b):\n    return torch.stack((torch.all(a > -100) * 1.0, torch.any(a > 100) * 1.0))", (5,), (1,)),
     ("norm_sq", "def f(a, b):\n    return torch.linalg.norm(a, dim=1) ** 2", (3, 2), (1,)),
     ("narrow", "def f(a, b):\n    return a.narrow(-1, 1, 2)", (3, 4), (1,)),
+    # aliasing: in-place updates through views reach the base, copies do not
+    ("alias_reshape", "def f(a, b):\n    c = a.clone()\n    v = c.reshape(-1, 1)\n    v *= 2\n    return c", (3, 2), (1,)),
+    ("alias_view_pow", "def f(a, b):\n    c = a.clone()\n    c.view(-1).pow_(2)\n    return c", (3, 2), (1,)),
+    ("alias_slice_col", "def f(a, b):\n    c = a.clone()\n    v = c[:, 1:]\n    v += 5\n    w = c[0]\n    w *= -1\n    return c", (3, 2), (1,)),
+    ("alias_none_axis", "def f(a, b):\n    c = a.clone()\n    v = c[:, None]\n    v -= 3\n    return c", (4,), (1,)),
+    ("alias_unsqueeze_squeeze", "def f(a, b):\n    c = a.clone()\n    c.unsqueeze(0).squeeze(0).mul_(3)\n    return c", (2, 3), (1,)),
+    ("alias_transpose", "def f(a, b):\n    c = a.clone()\n    v = c.T\n    v[0] = 9.0\n    return c", (3, 2), (1,)),
+    ("alias_detach_data", "def f(a, b):\n    c = a.clone()\n    c.detach().add_(1)\n    c.data.mul_(2)\n    return c", (3,), (1,)),
+    ("alias_chain", "def f(a, b):\n    c = a.clone()\n    v = c[1:].reshape(-1)\n    v[0] = 7.0\n    return c + v.sum()", (3, 2), (1,)),
+    ("alias_base_write_seen_by_view", "def f(a, b):\n    c = a.clone()\n    v = c[:, 0]\n    c += 10\n    return v * 1", (3, 2), (1,)),
+    ("alias_setitem_on_view", "def f(a, b):\n    c = a.clone()\n    v = c.reshape(2, 3)\n    v[1, :2] = b\n    return c", (3, 2), (2,)),
+    ("copy_advanced_index", "def f(a, b):\n    c = a.clone()\n    v = c[[0, 1]]\n    v *= 0\n    w = c[c[:, 0] > -100]\n    w += 1\n    return c", (3, 2), (1,)),
+    ("copy_arith_clone", "def f(a, b):\n    c = a.clone()\n    v = c * 1\n    v += 1\n    u = c.clone()\n    u -= 1\n    return c", (3, 2), (1,)),
+    ("setitem_int_then_slice", "def f(a, b):\n    c = a.clone()\n    c[1, :2] = b\n    return c", (2, 3), (2,)),
+    ("reshape_back", "def f(a, b):\n    return a.reshape(2, 3).reshape(3, 2) + a.reshape(6).reshape(3, 2)", (3, 2), (1,)),
+    ("reshape_unaligned", "def f(a, b):\n    return a.reshape(2, 3) * 1", (3, 2), (1,)),
+    ("reshape_unaligned3", "def f(a, b):\n    return a.reshape(3, 4)", (2, 2, 3), (1,)),
+    ("linalg_inv_batch", "def f(a, b):\n    m = torch.tensor([[2.0, 1.0], [1.0, 1.0]]) + torch.eye(2) * (a * a)[:, None, None]\n    return torch.matmul(torch.linalg.inv(m), b.unsqueeze(-1)).squeeze(-1)", (3,), (3, 2)),
+    ("alias_flatten", "def f(a, b):\n    c = a.clone()\n    c.flatten()[2] = -4.0\n    return c", (2, 2), (1,)),
+    ("linalg_inv", "def f(a, b):\n    m = torch.tensor([[2.0, 1.0], [1.0, 1.0]]) + torch.eye(2) * a[0] * a[0]\n    return torch.matmul(torch.linalg.inv(m), b)", (1,), (2, 1)),
     ("flip", "def f(a, b):\n    return torch.flip(a, [0])", (4, 2), (1,)),
     ("sign_relu", "def f(a, b):\n    return torch.sign(a) + torch.relu(a)", (6,), (1,)),
     ("ceil_int", "def f(a, b):\n    n = int(torch.ceil(a[0] / 3))\n    return torch.ones(n + 1)", (1,), (1,)),
